@@ -1,16 +1,16 @@
 SPECIFICATION Spec
 CONSTANTS
   IH = 1
-  Shape <- ShapeDup
+  Shape <- ShapeE
   MaxDup = 1
   MaxCrashes = 1
   MaxRestarts = 1
-  Alias = FALSE
+  Alias = TRUE
   BlockFirst = TRUE
   ApplyAtStart = TRUE
   Mix = TRUE
   WriteFails = TRUE
-  EvictEarly = FALSE
+  EvictEarly = TRUE
   Rec = FALSE
 INVARIANTS AppliedInOrder NoReexecWithoutCrash BlocksPresent StateMatches QuiescentConverged AppliedWhatArrived
 PROPERTIES HeightMonotone
